@@ -362,6 +362,11 @@ func (p *Parser) parseBuffer(buf []byte, last bool) (err error) {
 			depth++
 			continue
 		case closeObject:
+			if 0 < depth && 256 < len(p.mode) && p.mode[256] == 't' {
+				p.addToken(off)
+				off-- // the token is complete, handle the bracket again in the new mode
+				break
+			}
 			depth--
 			if depth < 0 || 0 <= p.starts[depth] {
 				return p.newError(off, "unexpected object close")
@@ -466,6 +471,11 @@ func (p *Parser) parseBuffer(buf []byte, last bool) (err error) {
 			depth++
 			continue
 		case closeArray:
+			if 0 < depth && 256 < len(p.mode) && p.mode[256] == 't' {
+				p.addToken(off)
+				off-- // the token is complete, handle the bracket again in the new mode
+				break
+			}
 			depth--
 			if depth < 0 || p.starts[depth] < 0 {
 				return p.newError(off, "unexpected array close")
